@@ -162,6 +162,11 @@ Definition C19_site_info_full : Prop :=
            In (bond_name lo hi, 1) (combine (si_inds ihi) (si_duals ihi)) /\
            (forall v iv, lookup seqb v info = Some iv -> In (bond_name lo hi) (si_inds iv) -> v = lo \/ v = hi)).
 
+(* NOTE (later round): `C19_site_info_full` above is superseded — as written it is false (no constraint
+   relating bond names and physical names: `C19_site_info_full_v1_refuted` in Props/C19b.v); the corrected
+   full statement is proved there as `C19_site_info_full_fixed`, together with bond_ends / bond_unique /
+   sites_coordination and the F15 name-collision refutation. *)
+
 Print Assumptions C19_coordination_is_degree.
 Print Assumptions C19_degree_counts_incident_edges.
 Print Assumptions C19_edge_factory_spec.
